@@ -9,6 +9,7 @@ CONSTANTS
   Listeners <- TL
   MaxUser = 0
   Waits <- TW
+  Timed = TRUE
 CONSTRAINT Progress
 POSTCONDITION Post
 CHECK_DEADLOCK FALSE
